@@ -440,6 +440,14 @@ local function coresults(d, k)
   if not ok then error(r, 0) end
   return tostring(r)
 end
+local function wrapargs(n)
+  local w = coroutine.wrap(function(...) local a, b = ... return select('#', ...) end)
+  return w(unpack(mkt(n)))
+end
+local function wrapargs1(n)
+  local w = coroutine.wrap(function(p, ...) return select('#', ...) + (p and 1 or 0) end)
+  return w(unpack(mkt(n)))
+end
 local function threegen()
   local C
   local A = coroutine.create(function()
@@ -488,7 +496,11 @@ func (e *Engine) demandProgram(t *core.Tape) (string, int) {
 	maxArg := 0
 	for i := 0; i < n; i++ {
 		id := fmt.Sprintf("d%d", i)
-		switch t.Choose(24) {
+		switch t.Choose(26) {
+		case 24:
+			fmt.Fprintf(&sb, "run(%q, wrapargs, %d)\n", id, t.Choose(140))
+		case 25:
+			fmt.Fprintf(&sb, "run(%q, wrapargs1, %d)\n", id, t.Choose(140))
 		case 23:
 			a := argc[t.Choose(len(argc))]
 			maxArg = max(maxArg, a)
